@@ -121,6 +121,7 @@ func scParse(s string) ([]scItem, error) {
 }
 
 type scFiles struct {
+	redisURL string
 	dir                                    string
 	cert, key, cert2, key2, ca, garbage    string
 	set, badset, marker, badmarker, nofile string
@@ -320,6 +321,9 @@ func scBuild(items []scItem, f *scFiles, intended map[int]bool, hold func(port i
 			if strings.Contains(it.kind, "marker") {
 				cfg.Cache.IpMarker = f.marker
 			}
+			if strings.Contains(it.kind, "redis") {
+				cfg.Cache.Redis = f.redisURL // the fake redis of this process
+			}
 			switch it.fault {
 			case "nomarker":
 				cfg.Cache.IpMarker = f.nofile
@@ -505,6 +509,19 @@ func runStartCfgChild(id string, parts []string) string {
 	files, err := scMakeFiles(dir)
 	if err != nil {
 		return "HARNESS-ERROR " + err.Error()
+	}
+	for _, it := range items {
+		if it.comp == "c" && strings.Contains(it.kind, "redis") && files.redisURL == "" {
+			// a redis tier: a fake redis server inside this process, up for all runs (part of the baseline); its
+			// accepted connections are sockets of the process too, so a client connection that survives close
+			// shows up twice in the socket count
+			fr, err := newFakeRedis()
+			if err != nil {
+				return "HARNESS-ERROR " + err.Error()
+			}
+			defer fr.close()
+			files.redisURL = fr.url()
+		}
 	}
 	router.VerifQuiet()
 	// A socket that is merely unreachable is closed by its finalizer at some later garbage collection: that is
